@@ -33,6 +33,10 @@ pub struct Gen<'a> {
     pub bp_hint: Option<(PackageAddress, String)>,
     /// function names of the blueprint under test (candidate method-name strings)
     pub names: Vec<String>,
+    /// role names of the receiver's blueprint and of the attached modules
+    pub role_names: Vec<String>,
+    /// (module discriminator, role name) pairs that exist on the receiver
+    pub role_pairs: Vec<(u8, String)>,
     pub budget: i64,
     pub max_depth: usize,
     /// probability (percent) of deliberately ill-typed / out-of-bounds leaves
@@ -72,7 +76,7 @@ pub fn typed<T: ManifestEncode>(t: &T) -> MV {
 
 impl<'a> Gen<'a> {
     pub fn new(w: &'a World, rng: &'a mut Rng) -> Gen<'a> {
-        Gen { w, rng, pre: vec![], blobs: vec![], n_buckets: 0, n_proofs: 0, n_reservations: 0, n_named: 0, affinity: vec![], bp_hint: None, names: vec![], budget: 400, max_depth: 10, hostility: 8, invalid_budget: 1, used: vec![] }
+        Gen { w, rng, pre: vec![], blobs: vec![], n_buckets: 0, n_proofs: 0, n_reservations: 0, n_named: 0, affinity: vec![], bp_hint: None, names: vec![], role_names: vec![], role_pairs: vec![], budget: 400, max_depth: 10, hostility: 8, invalid_budget: 1, used: vec![] }
     }
 
     fn hostile(&mut self) -> bool {
@@ -262,7 +266,10 @@ impl<'a> Gen<'a> {
             // field names of the non-fungible data of the world's resources
             return self.rng.pick(&["counter", "fixed", "note"]).to_string();
         }
-        if (h.contains("role") || h.contains("key")) && self.rng.chance(1, 3) {
+        if h.contains("role") && !self.role_names.is_empty() && self.rng.chance(3, 5) {
+            return self.rng.pick(&self.role_names).clone();
+        }
+        if (h.contains("role") && self.rng.chance(2, 3)) || (h.contains("key") && self.rng.chance(1, 3)) {
             return self.rng.pick(&self.w.strings).clone();
         }
         if h.contains("blueprint") && self.rng.chance(3, 4) {
@@ -840,6 +847,18 @@ impl<'a> Gen<'a> {
                 for (i, f) in field_types.iter().enumerate() {
                     let h = names.get(i).cloned().unwrap_or_default();
                     fields.push(self.value(s, *f, depth + 1, &h, false));
+                }
+                // a (ModuleId, role key) pair: make it name a role that exists on the receiver, most of the time
+                if !self.role_pairs.is_empty() && self.rng.chance(2, 3) {
+                    let mi = field_types.iter().position(|f| s.resolve_type_name_from_metadata(*f) == Some("ModuleId"));
+                    let ri = names.iter().position(|n| n.contains("role_key"));
+                    if let (Some(mi), Some(ri)) = (mi, ri) {
+                        let (m, name) = self.rng.pick(&self.role_pairs).clone();
+                        if let (Some(MV::Enum { .. }), Some(MV::String { .. })) = (fields.get(mi), fields.get(ri)) {
+                            fields[mi] = MV::Enum { discriminator: m, fields: vec![] };
+                            fields[ri] = MV::String { value: name };
+                        }
+                    }
                 }
                 // wrong arity, rarely
                 if !in_collection && self.rarely_invalid(200) {
